@@ -294,6 +294,10 @@ def fit_case(draw, tier, kind, fd=False, negligible_x=False):
     opts = {'corr': corr, 'num_grad': num_grad}
     if corr == 'supplied':
         opts['B'] = [[draw(fl(-1.0, 1.0)) for _ in range(n)] for _ in range(n)]
+    if corr == 'est' and kind == 'ls' and n >= 5 and draw(st.integers(0, 2)) == 0:
+        # keyword arguments of least_squares are forwarded to pyerrors.obs.covariance, to which the docstring of
+        # correlated_fit refers for the estimate: eigenvalue smoothing of the correlation matrix
+        opts['smooth'] = draw(st.integers(3, n - 2))
     if kind == 'ls' and not fd and not negligible_x:
         opts['method'] = draw(st.sampled_from(['LM', 'LM', 'LM', 'LM', 'migrad', 'Nelder-Mead', 'Powell']))
     else:
@@ -395,11 +399,16 @@ def weight_matrix(c):
     if o['corr'] is None:
         return np.diag(1.0 / dy ** 2), {}
     if o['corr'] == 'est':
-        corr = pe.covariance(list(c.y), correlation=True)
+        kw = {'correlated_fit': True}
+        if o.get('smooth') is not None:
+            kw['smooth'] = int(o['smooth'])
+            corr = pe.covariance(list(c.y), correlation=True, smooth=int(o['smooth']))
+        else:
+            corr = pe.covariance(list(c.y), correlation=True)
         if np.linalg.cond(corr) > 1e6:
             raise Skip('estimated correlation matrix ill-conditioned')
         C = np.diag(dy) @ corr @ np.diag(dy)
-        return np.linalg.inv(C), {'correlated_fit': True}
+        return np.linalg.inv(C), kw
     B = np.array(o['B'])
     R = B @ B.T + 0.5 * c.n * np.eye(c.n)
     d = np.sqrt(np.diag(R))
@@ -597,7 +606,7 @@ def same_obs(what, a, b):
 
 def labels(c):
     o = c.spec['opts']
-    labs = {'family:' + c.fam, 'npar:%d' % c.npar, 'layout:' + c.spec['layout'], 'corr:%s' % o['corr'],
+    labs = {'family:' + c.fam, 'npar:%d' % c.npar, 'layout:' + c.spec['layout'], 'corr:%s' % o['corr'] + (':smooth' if o.get('smooth') else ''),
             'method:' + (o['method'] if c.kind == 'ls' else 'ODR'), 'guess:' + o['guess'],
             'num_grad' if o['num_grad'] else 'autograd', 'xdim:%d' % len(c.xs)}
     pts = list(c.spec['y'])
